@@ -182,6 +182,12 @@ func (e *escaper) escapeAction(c context, n *parse.ActionNode) context {
 			err: errorf(ErrEscapeAction, n, n.Line, "cannot escape action %v: %s", n, err),
 		}
 	}
+	if c.tagNameSplit {
+		return context{
+			state: stateError,
+			err:   errorf(ErrEscapeAction, n, n.Line, "cannot escape action %v: a tag name before it is split over several text nodes", n),
+		}
+	}
 	e.editActionNode(n, s)
 	return c
 }
@@ -337,6 +343,8 @@ func join(a, b context, node parse.Node, nodeName string) context {
 	// contents of a are always returned.
 	a.element.names = joinNames(a.element.name, b.element.name, a.element.names, b.element.names)
 	a.attr.names = joinNames(a.attr.name, b.attr.name, a.attr.names, b.attr.names)
+	a.element.nameUnfinished = a.element.nameUnfinished || b.element.nameUnfinished
+	a.tagNameSplit = a.tagNameSplit || b.tagNameSplit
 	if a.attr.value != b.attr.value || b.attr.ambiguousValue {
 		a.attr.ambiguousValue = true
 	}
@@ -497,6 +505,12 @@ func (e *escaper) escapeListConditionally(c context, n *parse.ListNode, filter f
 
 // escapeTemplate escapes a {{template}} call node.
 func (e *escaper) escapeTemplate(c context, n *parse.TemplateNode) context {
+	if c.tagNameSplit {
+		return context{
+			state: stateError,
+			err:   errorf(ErrEscapeAction, n, n.Line, "cannot escape template call %v: a tag name before it is split over several text nodes", n),
+		}
+	}
 	c, name := e.escapeTree(c, n, n.Name, n.Line)
 	if name != n.Name {
 		e.editTemplateNode(n, name)
@@ -520,6 +534,10 @@ func mangle(c context, templateName string) string {
 	}
 	if c.element.name != "" {
 		s += "_" + c.element.String()
+	}
+	if c.element.nameUnfinished {
+		// Text at the start of the called template would extend the element name.
+		s += "_unfinished"
 	}
 	if c.linkRel != "" {
 		// The rel values of a link element select the sanitizer of its href.
@@ -665,7 +683,17 @@ func (e *escaper) escapeText(c context, n *parse.TextNode) context {
 				err:   errorf(ErrCSPCompatibility, n, 0, "inline event handler %q is disallowed for CSP compatibility", c.attr.name),
 			}
 		}
+		if c.element.nameUnfinished {
+			// This text directly follows the tag name that ended an earlier text node.
+			if (c.state == stateTag || c.state == stateAttrName && s[i] != '=') && bytes.IndexByte(tagEndSeparators, s[i]) == -1 {
+				c.tagNameSplit = true
+			}
+			c.element.nameUnfinished = false
+		}
 		c1, nread := contextAfterText(c, s[i:])
+		if c.tagNameSplit && c1.state != stateError {
+			c1.tagNameSplit = true
+		}
 		i1 := i + nread
 		sc, err := sanitizationContextForElementContent(c.element.name)
 		if c.state == stateText || err == nil && sc == sanitizationContextRCDATA {
